@@ -174,6 +174,30 @@ class Laws(Sub):
                     close("batched_act3", tu.npy(ab3)[i_, j_], (Mij @ np.append(pbn3[i_, 0], 1.0))[:3], _inf(Mij) * sp_, "Xb.Act(p) item (%d,%d), p broadcast along dim 1" % (i_, j_))
                     close("batched_act4", tu.npy(ab4)[i_, j_], Mij @ pbn4[i_, 0], _inf(Mij) * sp_, "Xb.Act(p4) item (%d,%d), p4 broadcast along dim 1" % (i_, j_))
                     close("batched_mul", _mat_of(lt, tu.npy(mb)[i_, j_]), Mij @ Mr[i_], _inf(Mij) * _inf(Mr[i_]), "(Xb @ Yb) item (%d,%d), Yb broadcast along dim 1" % (i_, j_))
+        # (a'') the in-place identity_() on a VIEW of a larger batch whose strides cannot be merged (a slice of the second batch
+        # dimension, every other row, a transposed batch, one column): "set the LieTensor to identity" is about the receiver's
+        # storage - the receiver and the part of the base it addresses become the identity, the rest of the base is untouched
+        # (an implementation that reshapes first writes into a temporary copy - seed C03h)
+        with rec.sut("identity_() on a view"):
+            base = torch.stack([X.tensor(), Y.tensor(), Z.tensor()] * 4, 0).reshape(3, 4, -1).clone()
+            base0 = base.clone()
+            Lb = pp.LieTensor(base, ltype=tu.LT[lt])
+            vk = tu.crc(case) % 4
+            V = (Lb[:, :2], Lb[::2], Lb.transpose(0, 1), Lb[:, 1])[vk]
+            mask = torch.zeros(3, 4, dtype=torch.bool)
+            (mask[:, :2], mask[::2], mask, mask[:, 1])[vk][...] = True
+            try:
+                Vr = V.identity_()
+            except NotImplementedError:
+                Vr = None
+        if Vr is not None:
+            rec.label("identity_view:%d" % vk)
+            for nm, I in (("returned", Vr), ("receiver", V)):
+                for row in tu.npy(I.tensor() if isinstance(I, pp.LieTensor) else I).reshape(-1, R.GDIM[lt]):
+                    close("identity_view_value", _mat_of(lt, row), np.eye(4), 1.0, "view.identity_() [%s, view kind %d] is not the identity" % (nm, vk))
+            for row in tu.npy(base[mask]).reshape(-1, R.GDIM[lt]):
+                close("identity_view_storage", _mat_of(lt, row), np.eye(4), 1.0, "the storage addressed by view.identity_() (view kind %d) was not set to the identity" % vk)
+            rec.check(torch.equal(base[~mask], base0[~mask]), "identity_view_outside", "view.identity_() changed items of the base outside the view (view kind %d)" % vk)
         # (b') identities have no memory: an identity element that was updated in place (add_, the documented in-place update - what
         # an optimiser does to a parameter initialised with identity_X()) must not change what the constructors return next
         # (a shared template / cache handed out by reference - seed C03e).  All spellings and sizes of the request.
